@@ -825,8 +825,10 @@ func (f *Frame) frameObligation(label string, ec *effContract, pre *SpecEnv, h0,
 		}
 		_, vs, _ := t1.Sort.IsArray()
 		_ = vs
-		cond := And(append([]Term{Le(r, alloc0), Ne(r, IntLit(0))}, excl...)...)
-		// sub-objects (negative addresses) of allocated objects are covered too: r ≤ alloc0 includes them
+		// addresses of objects allocated at entry, including their sub-objects
+		// (negative addresses whose enclosing object root!(r) was allocated at entry)
+		root := App("root!", SInt, r)
+		cond := And(append([]Term{Le(root, alloc0), Ne(r, IntLit(0)), Ne(root, IntLit(0))}, excl...)...)
 		goals = append(goals, Forall([]Term{r}, Implies(cond, Eq(Sel(t1, r), Sel(t0, r)))))
 		infos = append(infos, name)
 	}
